@@ -673,6 +673,25 @@ func E6ScannerSites(c *core.Ctx, r *core.Report) {
 		return ok && core.ObjOf(info, id) == dpmmObj
 	}
 	n := 0
+	rasObj := paramObj(info, fd, 0)
+	// the argument of a scanner call is a conversion call, or a local all of whose assignments are
+	// conversion calls (a remembered, already converted point); the conversions are the sites
+	isConv := func(e ast.Expr) *ast.CallExpr {
+		inner, ok := core.Unparen(e).(*ast.CallExpr)
+		if !ok || len(inner.Args) != 2 {
+			return nil
+		}
+		if f := core.CalleeOf(info, inner); f == nil || f.Name() != "fixedPoint26_6" {
+			return nil
+		}
+		return inner
+	}
+	type site struct {
+		name  string
+		call  *ast.CallExpr
+		inner *ast.CallExpr
+	}
+	var sites []site
 	ast.Inspect(fd.Body, func(nd ast.Node) bool {
 		call, ok := nd.(*ast.CallExpr)
 		if !ok || len(call.Args) != 1 {
@@ -682,12 +701,49 @@ func E6ScannerSites(c *core.Ctx, r *core.Report) {
 		if !ok || (se.Sel.Name != "Start" && se.Sel.Name != "Line") {
 			return true
 		}
-		inner, ok := core.Unparen(call.Args[0]).(*ast.CallExpr)
-		if !ok || len(inner.Args) != 2 {
+		if id, ok := core.Unparen(se.X).(*ast.Ident); !ok || core.ObjOf(info, id) != rasObj {
 			return true
 		}
-		if f := core.CalleeOf(info, inner); f == nil || f.Name() != "fixedPoint26_6" {
+		if inner := isConv(call.Args[0]); inner != nil {
+			sites = append(sites, site{se.Sel.Name, call, inner})
 			return true
+		}
+		if id, ok := core.Unparen(call.Args[0]).(*ast.Ident); ok {
+			o := core.ObjOf(info, id)
+			var defs []*ast.CallExpr
+			allConv := true
+			ast.Inspect(fd.Body, func(k ast.Node) bool {
+				if as, ok := k.(*ast.AssignStmt); ok && len(as.Lhs) == len(as.Rhs) {
+					for i, l := range as.Lhs {
+						if lid, ok := l.(*ast.Ident); ok && core.ObjOf(info, lid) == o {
+							if inner := isConv(as.Rhs[i]); inner != nil {
+								defs = append(defs, inner)
+							} else {
+								allConv = false
+							}
+						}
+					}
+				}
+				return true
+			})
+			if allConv && len(defs) > 0 {
+				for _, d := range defs {
+					sites = append(sites, site{se.Sel.Name + " (through `" + id.Name + "`)", call, d})
+				}
+				return true
+			}
+		}
+		sites = append(sites, site{se.Sel.Name, call, nil})
+		return true
+	})
+	for _, st := range sites {
+		se := struct{ Sel struct{ Name string } }{}
+		se.Sel.Name = st.name
+		call, inner := st.call, st.inner
+		if inner == nil {
+			n++
+			r.Fail("E6.scanner-site", fmt.Sprintf("canvas.Path.ToScanxScanner|%s site #%d", st.name, n), c.Pos(call.Pos()), fmt.Sprintf("the argument `%s` is neither fixedPoint26_6(X*dpmm, dy-Y*dpmm) nor a local that only ever holds such a conversion", c.Src(call.Args[0])))
+			continue
 		}
 		n++
 		key := fmt.Sprintf("canvas.Path.ToScanxScanner|%s site #%d", se.Sel.Name, n)
@@ -733,8 +789,7 @@ func E6ScannerSites(c *core.Ctx, r *core.Report) {
 		} else {
 			r.Fail("E6.scanner-site", key, c.Pos(call.Pos()), fmt.Sprintf("`%s` deviates from the sibling sites' shape fixedPoint26_6(d[k]*dpmm, dy-d[k+1]*dpmm): part of the outline is not y-flipped/scaled like the rest", types.ExprString(inner)))
 		}
-		return true
-	})
+	}
 	r.Count("E6.scanner-sites", n)
 	r.Floor("E6.scanner-sites", 4)
 	// callers pass the image height
